@@ -46,6 +46,11 @@ pub fn serve_file<T>(file_path: &'static str) -> impl Fn(Request, Arc<T>) -> Res
 /// This is **not** equivalent to `serve_dir`, as `serve_dir` respects index files within nested directories.
 pub fn serve_as_file_path<T>(directory_path: &'static str) -> impl Fn(Request, Arc<T>) -> Response {
     move |request: Request, _| {
+        // Avoid path traversal exploits
+        if request.uri.contains("..") {
+            return error_handler(StatusCode::NotFound);
+        }
+
         let directory_path = directory_path.strip_suffix('/').unwrap_or(directory_path);
         let file_path = request.uri.strip_prefix('/').unwrap_or(&request.uri);
         let path = format!("{}/{}", directory_path, file_path);
